@@ -107,7 +107,7 @@ var plans = map[string]Plan{
 	},
 	"C13": {
 		Level: "exploration",
-		Rule: "cases are (decoding API, message <=96 bytes): a complete grid placing 2^16, 2^20, 2^24, 2^28, 2^31-1 at every position where the format carries a length or count (binary length; list/set count x 11 element kinds; map count x 8 key/value kinds; nested positions; top-level containers; strict and legacy envelope name length; frame length; the same bodies behind an envelope) x every API; every container/binary field of the repository's generated plugin-API types x {FromWire(Decode), Decode(stream)}; plus rapid-generated mutated short messages. " +
+		Rule: "cases are (decoding API, message <=96 bytes): a complete grid placing 2^16, 2^20, 2^24, 2^28, 2^31-1 at every position where the format carries a length or count (binary length; list/set count x 11 element kinds; map count x 8 key/value kinds; nested positions; top-level containers; strict and legacy envelope name length; frame length; the same bodies behind an envelope) x every API; every container/binary field of the repository's generated plugin-API types and of freshly generated programs (top level and one struct level down) x {FromWire(Decode), Decode(stream)}; plus rapid-generated mutated short messages. " +
 			"Each call runs in a child process (RLIMIT_AS 6 GiB); oracle: runtime.MemStats.TotalAlloc delta <= 24 MiB + 64*N, CPU <= 2 s (re-measured alone twice), child not killed. " +
 			"Non-trivial: the message carries a declared length >= 2^16 or is a mutation. Distinct: SHA-256 of (API, message).",
 		Assumptions: []string{
@@ -119,6 +119,7 @@ var plans = map[string]Plan{
 			{Name: "grid", Pkg: "./checks/c13", Run: "^TestGrid$", Shards: [2]int{8, 8}, Weight: 2},
 			{Name: "gen-grid", Pkg: "./checks/c13", Run: "^TestGenGrid$", Shards: [2]int{4, 4}, Weight: 2},
 			{Name: "mutated", Pkg: "./checks/c13", Run: "^TestMutated$", Rapid: true, Shards: [2]int{4, 16}, Checks: [2]int{600, 4000}, Weight: 2},
+			{Name: "c13-gen", Run: "^TestC13Gen$", Shards: [2]int{6, 12}, Weight: 2, Lab: &LabSpec{Kind: "value", Programs: [2]int{6, 30}}},
 		},
 	},
 	"C07": {
